@@ -768,6 +768,7 @@ static void fieldCase(Rng& r, Ctx& c, int sim, int variant)
     fftClass      = variant == 2 ? "grid-nonsquare" : variant == 1 ? "anisotropy-ignored" : "";
     meanProbe     = variant == 0;
     cs.fftAlias   = r.coin(0.7);
+    if (variant == 4) cs.fftAlias = false; // (with the anti-aliasing sum the negative spectral terms of this class all but vanish)
     cs.fftPercent = variant == 4 ? 50. : 0.1;
     cs.R          = variant == 4 ? (th ? 40000 : 20000) : th ? 4000 : 800;
     cs.batch      = variant == 4 ? 250 : 10;
